@@ -760,3 +760,17 @@ func execCase(c Case) (res vt.Result) {
 
 func TestPropRequests(t *testing.T)   { vt.Check(t, "requests", genCase, execCase) }
 func TestReplayRequests(t *testing.T) { vt.Replay(t, "requests", execCase) }
+
+// FuzzRequests drives the same grammar and oracle with Go's native
+// coverage-guided fuzzer (the byte input is rapid's source of randomness), used
+// by the thorough tier under a wall-clock budget.
+func FuzzRequests(f *testing.F) {
+	f.Fuzz(rapid.MakeFuzz(func(t *rapid.T) {
+		c := genCase(t)
+		res := execCase(c)
+		if res.Err != nil {
+			p := vt.WriteReplay("requests", c, res.Err)
+			t.Fatalf("VERIF-FUZZ-VIOLATION replay=%s: %v", p, res.Err)
+		}
+	}))
+}
